@@ -212,6 +212,17 @@ void probeAll(BookWorld& W, bool wellFormed, Rng& r, vf::Result& res, const std:
                     return;
                 }
             }
+            // 40 independent draws miss a move that carries at least half of the total weight with probability <= 2^-40
+            for (size_t k = 0; k < stored.size(); k++)
+                if (stored[k].weight > 0 && stored[k].weight * 2L >= sumW && !seen.count((int)k)) {
+                    bool otherSame = false;
+                    for (size_t q = 0; q < stored.size(); q++) if (q != k && stored[q].move == stored[k].move && seen.count((int)q)) otherSame = true;
+                    if (!otherSame) {
+                        res.violate("C18", "heavy-move-never-returned", "40 draws from " + TextIO::toFEN(pos) + " never returned " + TextIO::moveToUCIString(decodeMove(pos, stored[k].move)) +
+                                    " although it carries " + std::to_string(stored[k].weight) + " of the total weight " + std::to_string(sumW));
+                        return;
+                    }
+                }
             if (!stored.empty() && sumW > 0 && seen.empty())
                 res.violate("C18", "stored-move-never-returned", "40 draws from " + TextIO::toFEN(pos) + " returned no move although weights sum to " + std::to_string(sumW));
             for (size_t k = 0; k < stored.size(); k++)
@@ -247,6 +258,22 @@ void runC18(const Scenario& sc, vf::Result& res) {
     for (int v = 0; v < nVar && res.verdict == "ok"; v++) {
         std::string what;
         std::string bad = damage(r, good, what);
+        if (r.chance(0.04) && !W.probes.empty()) {
+            // a file with a huge number of records under one key (all legal, maximal weight): the weight sum leaves the
+            // range the move selection can handle
+            what = "mass-duplicates";
+            Position p = W.probes[r.below(W.probes.size())];
+            std::vector<Move> lm;
+            uci::legalMoves(p, lm);
+            if (!lm.empty()) {
+                std::vector<PGRec> recs = W.recs;
+                long n = r.chance(0.5) ? (long)r.range(16380, 16500) : (long)r.range(32760, 40000);
+                int nMoves = (int)r.range(1, 3);
+                for (long i = 0; i < n; i++) recs.push_back({PolyglotBook::getHashKey(p), encodeMove(p, lm[(size_t)(i % nMoves) % lm.size()]), (U16)(r.chance(0.9) ? 65535 : r.below(65536))});
+                std::stable_sort(recs.begin(), recs.end(), [](const PGRec& a, const PGRec& b) { return a.key < b.key; });
+                bad = serialize(recs);
+            }
+        }
         if (r.chance(0.15)) { unlink(path.c_str()); what = "missing-file"; }
         else writeFile(path, bad);
         res.counters["fault_file_" + what]++;
